@@ -33,7 +33,7 @@ class C04(Check):
     RULE += PRELUDE_RULE
     ASSUMPTIONS = ['keys are hashable and == is an equivalence on them (NaN / unhashable keys are outside the statement)']
     ANCHORS = ['rxsci/operators/group_by.py', 'rxsci/operators/multiplex.py', 'rxsci/state/memory_store.py']
-    REQUIRED_TAGS = ['consumer-runs-a-pipeline-built-with-the-same-operator-object', 'top', 'group', 'roll', 'roll_eq', 'split', 'key=kt', 'key=ks', 'key=kbig', 'key=kf', 'key=kmix', 'key=kneg', 'key=kmers', 'key=ktneg', 'key=knp', 'key=kcent', 'key=kobj', 'key=kcls', 'equal-items-different-keys', 'over-65536-keys', 'per-item', 'to_list',
+    REQUIRED_TAGS = ['consumer-runs-a-pipeline-built-with-the-same-operator-object', 'top', 'group', 'roll', 'roll_eq', 'split', 'key=kt', 'key=ks', 'key=kbig', 'key=kf', 'key=kmix', 'key=kneg', 'key=kmers', 'key=ktneg', 'key=knp', 'key=kcent', 'key=kobj', 'key=kcls', 'equal-items-different-keys', 'over-65536-keys', 'a-parent-slot-re-created-over-65536-times', 'per-item', 'to_list',
                      'many-keys', 'empty', 'over-256-keys'] + ['operator-object-used-in-two-pipelines'] + ['history-fed-more-than-the-judged-stream'] + PRELUDE_TAGS + ['prelude:overlap']
     REQUIRED_OBSERVED = ['child_lifetimes_checked', 'parent_lifetimes_checked', 'groups_flushed_at_completion']
 
@@ -49,6 +49,11 @@ class C04(Check):
                 n_keys = 66000 + rng.randint(0, 3000)
                 yield {'key': 'mod:%d' % (n_keys + 7), 'parent': 'top', 'parent_node': None, 'items': list(range(n_keys)) + [5, 70, 65540], 'inner': 'per-item',
                        'watchdog_s': 300}
+                continue
+            if j == 7 and shard == 0:
+                # a parent slot re-created 65536 times and more (group_by under roll(2, 2) on 131 000 items) with a key that occurs in
+                # the first window only - and again exactly 65536 windows later: generation stamps of 16 bits, lazily dropped entries
+                yield {'recreated': 65536 + 3, 'key': 'mod:2', 'parent': 'roll_eq', 'parent_node': None, 'items': [], 'inner': 'to_list', 'watchdog_s': 300}
                 continue
             if tier == 'thorough' and shard == 0 and j == 5:
                 # more than 2**20 groups open at the same time (a flat group_by on a user id), then items for the first ones again
@@ -76,8 +81,36 @@ class C04(Check):
             yield {'key': rng.choice(KEYS) % nk, 'parent': name, 'parent_node': windows.PARENTS[name](rng),
                    'items': items, 'inner': 'to_list' if rng.random() < 0.67 else 'per-item'}
 
+    def _eval_recreated(self, case, out):
+        import rx
+        from ..common import Snap, subscribe
+        nwin = case['recreated']
+        out.tags += ['roll_eq', 'key=mod', 'to_list', 'a-parent-slot-re-created-over-65536-times']
+        out.nontrivial = True
+        rare_at = {0, 2 * 65536, 2 * 65536 + 1}
+        keyf = (lambda i: 'rare' if i in rare_at else i % 2)
+        items = list(range(2 * nwin))
+        snap = subscribe(rx.from_(items).pipe(rs.state.with_memory_store([rs.data.roll(2, 2, [rs.ops.group_by(keyf, [rs.data.to_list()])])])), Snap())
+        if snap.err is not None or not snap.done:
+            return out.fail('group_by:stream-error', error=repr(snap.err), done=snap.done, windows=nwin)
+        want = []
+        for w in range(nwin):
+            groups = {}
+            for i in (2 * w, 2 * w + 1):
+                groups.setdefault(keyf(i), []).append(i)
+            want += list(groups.values())
+        out.observed['parent_lifetimes_checked'] += nwin
+        out.observed['groups_flushed_at_completion'] += len(want)
+        if snap.out != want:
+            k_ = next((i for i, (a, b) in enumerate(zip(snap.out, want)) if a != b), min(len(snap.out), len(want)))
+            return out.fail('group_by:groups-of-a-re-created-parent-slot-differ', first_difference=k_, got=snap.out[max(0, k_ - 1):k_ + 3], want=want[max(0, k_ - 1):k_ + 3],
+                            n_got=len(snap.out), n_want=len(want))
+        return out
+
     def evaluate(self, case):
         out = Outcome()
+        if case.get('recreated'):
+            return self._eval_recreated(case, out)
         items = case['items']
         keyf = progs.fn(case['key'])
         if len(items) > 60000:
